@@ -62,6 +62,21 @@ pub(crate) fn is_closed_string(text: &str) -> bool {
     }
 }
 
+/// The value of a JSON string token (the source text of a string node, quotes included).
+/// Escape sequences spell the same string differently ("@types\/node", "\u00e9"), so a
+/// token that contains one is decoded; a token without escapes is its own value.
+pub(crate) fn json_string_value(text: &str) -> String {
+    let text = text.trim();
+    if text.contains('\\')
+        && let Ok(decoded) = serde_json::from_str::<String>(text)
+    {
+        return decoded;
+    }
+    text.trim_start_matches('"')
+        .trim_end_matches('"')
+        .to_string()
+}
+
 /// Detect the appropriate parser type based on URI
 pub fn detect_parser_type(uri: &str) -> Option<RegistryType> {
     if is_github_actions_workflow(uri) {
